@@ -6,9 +6,10 @@ import gens as G
 from props.c05 import KIND, QUAD, BOOL, SPIN, cls_of
 
 ID = "C14"
-IMPORTS = ("From QV.Model Require Import Base Matrix Arith.\nFrom QV.Proofs Require Import InvProofs.\n"
+IMPORTS = ("From QV.Model Require Import Base Matrix Arith Expr Extrema Sat PCBO Convert PCSO.\nFrom QV.Proofs Require Import InvProofs.\n"
            "From QV.Corr Require Import C14.")
 CASE_TYPE = "(cin * cout)"
+CHUNK = 40
 RUN, EQB = "run_case", "out_eqb"
 N = {"quick": 500, "thorough": 6000}
 RULE = ("random histories of 1-12 edits (item assignment incl. zero, +=, in-place + - * ** / with dict/model/scalar "
@@ -40,7 +41,17 @@ def gen_terms(rng, labs, quad, n=3, zero_ok=True):
 
 
 def gen(rng, i, tier):
-    kind = rng.choice(ALL)
+    kind = rng.choice(ALL + ["PCBO", "PCBO", "PCBO", "PCSO"])
+    if kind in ("PCSO", "PCBO"):
+        # the constraint methods divide by 2 / multiply by 0.5 (floats): exact on dyadic coefficients only
+        G.DYADIC_ONLY = True
+    try:
+        return gen_(rng, i, tier, kind)
+    finally:
+        G.DYADIC_ONLY = False
+
+
+def gen_(rng, i, tier, kind):
     quad = kind in QUAD
     uni = 'int' if kind.endswith("Matrix") else rng.choice(['int', 'pool', 'pool'])
     labs = G.labels(rng, uni, rng.randint(1, 5))
@@ -73,6 +84,8 @@ def gen(rng, i, tier):
             edits.append({"e": "ipow", "n": rng.choice([1, 2, 2, 3, 0])})
         elif r < 0.82:
             c = G.coef(rng)
+            if kind in ("PCSO", "PCBO"):      # after a constraint the coefficients are floats: only divisions that are exact on them
+                c = rng.choice([F(2), F(-2), F(4), F(1, 2), F(-1, 4)])
             edits.append({"e": "idiv", "c": [c.numerator, c.denominator]})
         elif r < 0.88:
             edits.append({"e": "update", "terms": G.jraw(gen_terms(rng, labs, quad, n=2))})
@@ -82,17 +95,35 @@ def gen(rng, i, tier):
             edits.append({"e": "refresh"})
         else:
             edits.append({"e": "copy"})
+    if kind in ("PCBO", "PCSO") and rng.random() < 0.8:
+        # adding constraints is an edit too: the ancilla names it creates must be new ones
+        from props import c02, c03
+        clabs = labs if len(labs) >= 2 else labs + [l for l in C.POOL if l not in labs][:2]
+        for _ in range(rng.randint(1, 3)):
+            c = (c03 if kind == "PCSO" else c02).gen_call(rng, clabs)
+            if kind == "PCSO":
+                c["log"] = True      # unary slack on spins squares a many-term boolean form: too slow for the model run here (C03 covers it)
+            edits.insert(rng.randint(0, len(edits)), {"e": "cons", "c": c})
+        # products and powers of a model that already carries penalty terms blow up the model run: keep them before the
+        # first constraint only
+        first = next(j for j, e in enumerate(edits) if e["e"] == "cons")
+        edits = edits[:first] + [e for e in edits[first:] if e["e"] not in ("ipow",) and not (e["e"] == "imul" and e.get("okind") != "scalar")]
     return {"kind": kind, "init": G.jraw(init), "edits": edits}
 
 
 def observe(m):
     deg = m.degree
     o = {"tm": C.jterms(C.enc_terms(m)), "deg": None if deg == -float("inf") else int(deg),
-         "vars": sorted(C.enc(x) for x in m.variables), "n": m.num_binary_variables, "mp": []}
+         "vars": sorted(C.enc(x) for x in m.variables), "n": m.num_binary_variables, "mp": [],
+         "anc": getattr(m, "num_ancillas", 0)}
     if hasattr(m, "_mapping"):
         o["mp"] = [[C.enc(k), v] for k, v in m._mapping.items()]
         o["rmp"] = [[k, C.enc(v)] for k, v in m._reverse_mapping.items()]
     return o
+
+
+class ReusedAncilla(Exception):
+    pass
 
 
 def apply(m, e):
@@ -126,6 +157,22 @@ def apply(m, e):
         m.refresh()
     elif t == "copy":
         m = m.copy()
+    elif t == "cons":
+        c = e["c"]
+        P = {k: C.num(v) for k, v in G.unjraw(c["P"])}
+        b = None if c["bounds"] is None else tuple(None if x is None else C.num(F(*x)) for x in c["bounds"])
+        kw = {"lam": C.num(F(*c["lam"])), "bounds": b, "suppress_warnings": True}
+        if c["rel"] != "eq":
+            kw["log_trick"] = c["log"]
+        before = {v for v in m.variables if str(v).startswith("__a")}
+        n0 = m.num_ancillas
+        getattr(m, "add_constraint_%s_zero" % c["rel"])(P, **kw)
+        new = {v for v in m.variables if str(v).startswith("__a")} - before
+        want = {"__a%d" % i for i in range(n0, m.num_ancillas)}
+        if not new <= want:
+            raise ReusedAncilla("constraint ancillas %r are not the fresh names __a%d..__a%d" % (sorted(new - want), n0, m.num_ancillas - 1))
+        if any(int(str(v)[3:]) >= m.num_ancillas for v in m.variables if str(v).startswith("__a")):
+            raise ReusedAncilla("an ancilla name is not below num_ancillas = %d" % m.num_ancillas)
     return m
 
 
@@ -142,6 +189,9 @@ def run_impl(case):
         before = dict(m) if e["e"] == "refresh" else None
         try:
             m = apply(m, e)
+        except ReusedAncilla as ex:
+            out["checks"].append("after edit %d (constraint): %s" % (j, ex))
+            break
         except (KeyError, ValueError, TypeError, ZeroDivisionError, RuntimeError) as ex:
             out["error"] = type(ex).__name__
             break
@@ -236,15 +286,25 @@ def edit_lit(e):
     return {"clear": "EClear", "refresh": "ERefresh", "copy": "ECopy"}[t]
 
 
+def hedit_lit(e):
+    if e["e"] != "cons":
+        return "HE (%s)" % edit_lit(e)
+    from props import c02
+    c = e["c"]
+    tl = lambda j: C.termsl([(k, F(v[0], v[1])) for k, v in j])
+    b = "(None, None)" if c["bounds"] is None else "(%s, %s)" % tuple(C.optc(x, lambda y: C.q(F(*y))) for x in c["bounds"])
+    return "HC %s %s %s %s %s" % (c02.RELC[c["rel"]], tl(c["P"]), C.q(F(*c["lam"])), C.boolc(c["log"]), b)
+
+
 def obs_lit(o):
-    return "{| o_tm := %s; o_deg := %s; o_vars := %s; o_n := %s; o_mp := [%s] |}" % (
+    return "{| o_tm := %s; o_deg := %s; o_vars := %s; o_n := %s; o_mp := [%s]; o_anc := %d%%nat |}" % (
         C.termsl([(k, F(v[0], v[1])) for k, v in o["tm"]]), C.optc(o["deg"], C.nat), C.natlist(o["vars"]), C.nat(o["n"]),
-        "; ".join("(%d%%nat, %d%%nat)" % (a, b) for a, b in o["mp"]))
+        "; ".join("(%d%%nat, %d%%nat)" % (a, b) for a, b in o["mp"]), o.get("anc", 0))
 
 
 def literal(case, out):
     cin = "(%s, %s, [%s])" % (KIND[case["kind"]], C.termsl([(k, F(v[0], v[1])) for k, v in case["init"]]),
-                              "; ".join(edit_lit(e) for e in case["edits"]))
+                              "; ".join(hedit_lit(e) for e in case["edits"]))
     cout = "([%s], %s)" % ("; ".join(obs_lit(o) for o in out["obs"]), "None" if out["error"] is None else "Some " + out["error"])
     return "(%s, %s)" % (cin, cout)
 
